@@ -94,6 +94,30 @@ SEEDS.update({
           'at least batch_size expired running actions the checker skips (ad-hoc runs without a task) created before the lost action of a workflow: the batch is always filled by them'),
 })
 
+# third wave
+SEEDS.update({
+ 'C01c': ('_possible_route returns the verdict of the first completed parent of a not-yet-created inbound task',
+          'a join whose inbound task has two parents; the first-defined parent completes without triggering it while the second still runs when the join is refreshed; the join has an on-error / on-complete route'),
+ 'C02c': ('get_workflow_spec_by_execution_id on a cache miss returns the spec cached for the (current) definition instead of the stored execution spec',
+          'the definition is updated while an execution is in flight and the next event of that execution is handled with a cold execution-spec cache'),
+ 'C03c': ('the "rerunning succeeded tasks" guard moved from _run_existing to Workflow.rerun',
+          'two rerun commands for the same ERROR task; the first runs it to SUCCESS, the second start request then restarts the succeeded task'),
+ 'C04c': ('numeric join: the remaining cardinality is used in the "still reachable" test',
+          'join: N >= 2 with at least one but fewer than N routed inbound tasks and enough others completing without routing'),
+ 'C05c': ('a join takes the context of every completed inbound task that routed somewhere (has_next_tasks) instead of those that routed to it',
+          'partial join; an inbound task whose guarded / error edge into the join does not fire, which routes elsewhere and publishes'),
+ 'C06c': ('Task.complete guard: not is_valid_transition(state, new) instead of not is_skipped(new)',
+          'a duplicated sub-workflow result message arriving after the parent task completed while the parent workflow is still RUNNING'),
+ 'C07c': ('Workflow.set_state never lowers `accepted` (same site as the first-wave C12 seed)',
+          'with-items over sub-workflows, two failed items repaired from the inside, one finishing before the other'),
+ 'C08c': ('_before_task_start stops at the first policy that moves the task out of RUNNING',
+          'wait-before (or pause-before) together with timeout on one task and an action that outlives the timeout'),
+ 'C09c': ('resolve_workflow_definition: split(parent_spec_name)[0] instead of rstrip',
+          'a workbook whose name contains the calling workflow\'s own short name (main_flows / main) calling a sibling by its short name'),
+ 'C10c': ('_continue_workflow drops every engine command (not only pause) on resume',
+          'a task whose clause yields fail / succeed completes while the workflow is paused'),
+})
+
 
 def main():
     for sid, (change, needs) in SEEDS.items():
